@@ -119,6 +119,37 @@ def l1_raw_text(c1: int, c2: int, c3: int, c4: int) -> bool:
     return latex_text_ok(out)
 
 
+@lemma('L1.stateful', 'C17', quick=ks(2)[1:], thorough=ks(3)[1:], timeout=600,
+       covers=['latex_renderer.py:LaTeXRenderer.render_raw_text', 'latex_renderer.py:LaTeXRenderer.render_inline_code', 'latex_renderer.py:LaTeXRenderer.render_block_code'],
+       note='ONE renderer instance, the call sites of render_raw_text in the order a document can produce them: the same text first as code content (escape=False, through render_inline_code / render_block_code) and then as ordinary text (escape=True), and the other way round: the escaped result does not depend on the earlier call')
+def l1_stateful(c1: int, c2: int, c3: int, code_first: bool, block: bool) -> bool:
+    """
+    pre: all_ok(cp_ok, P('k'), c1, c2, c3)
+    post: _
+    """
+    r = _r()
+    text = S(P('k'), c1, c2, c3)
+    fresh = _r().render_raw_text(raw(text))
+
+    def code():
+        try:
+            if block:
+                r.render(mk(block_token.CodeFence, language='', children=(raw(text),)))
+            else:
+                r.render(mk(span_token.InlineCode, children=(raw(text),)))
+        except RuntimeError:
+            pass
+    if code_first:
+        code()
+    out = r.render_raw_text(raw(text))
+    if not code_first:
+        code()
+        out2 = r.render_raw_text(raw(text))
+        if out2 != out:
+            return False
+    return out == fresh and latex_text_ok(out)
+
+
 @lemma('L1.url', 'C17', quick=ks(3), thorough=ks(4), timeout=300, stubs=['urllib.parse.quote -> contract stub'],
        covers=['latex_renderer.py:LaTeXRenderer.escape_url'])
 def l1_url(c1: int, c2: int, c3: int, c4: int) -> bool:
